@@ -79,7 +79,7 @@ Definition run_out (r : name * list value) (c : chrom_out) : Prop :=
   co_name c = fst r /\ co_vals c = snd r /\ lookup (fst r) sizes = Some (co_len c)
   /\ check_chrom (co_len c) (snd r) = Ok tt.
 
-(* each run of the input becomes one chrom_out.  Since /repo 6b10d42 a chromosome whose run reappears
+(* each run of the input becomes one chrom_out.  Since /repo 4ea85d7 a chromosome whose run reappears
    is refused (E_CHROM_SPLIT), so ACCEPTANCE implies that every chromosome forms one run, none of
    them was known before, and the ids are 0,1,2,... in the order of the runs *)
 Lemma process_runs_spec : forall rs prev ids0 ids outs,
